@@ -302,6 +302,8 @@ class _Run:
     def assign(self, target, v: Val, env: Env, value_node=None):
         if isinstance(target, ast.Name):
             env.vars[target.id] = v
+            for k_ in [k_ for k_ in env.vars if k_.startswith(target.id + ".")]:
+                del env.vars[k_]      # refinements of `x.attr` expressions die with x
             # facts about the old value of this name are void
             env.facts = frozenset(f for f in env.facts if target.id not in f[1:])
         elif isinstance(target, (ast.Tuple, ast.List)):
@@ -401,6 +403,14 @@ class _Run:
             if cur is not None and cur.kind == "I" and tags is not None:
                 new = (cur.types & tags) if truth else (cur.types - tags)
                 env.vars[name] = Val("I", new, cur.own, cur.hk)
+            return env
+        if isinstance(t, ast.Call) and dotted(t.func) == "isinstance" and len(t.args) == 2 and isinstance(t.args[0], ast.Attribute) and isinstance(t.args[0].value, ast.Name):
+            # isinstance(x.attr, C): the refinement is kept for the expression `x.attr` until x is rebound
+            text = norm(t.args[0])
+            cur = env.vars.get(text) or self.ev(t.args[0], env)
+            tags = self.class_tags(t.args[1])
+            if cur is not None and cur.kind == "I" and tags is not None:
+                env.vars[text] = Val("I", (cur.types & tags) if truth else (cur.types - tags), cur.own, cur.hk)
             return env
         if isinstance(t, ast.Compare) and len(t.ops) == 1:
             op, l, r = t.ops[0], t.left, t.comparators[0]
@@ -573,6 +583,8 @@ class _Run:
         text = norm(e)
         if text in self.attr_over:
             return self.attr_over[text]
+        if text in env.vars:
+            return env.vars[text]
         base = self.ev(e.value, env)
         if isinstance(e.value, ast.Name) and e.value.id == "self" and self.fi.cls is not None and "self" not in env.vars:
             known = self.known_self_attrs()
